@@ -206,6 +206,9 @@ func cmdCheck(args []string) int {
 	if *workers == 0 {
 		*workers = runtime.NumCPU()
 	}
+	if id == "C17" {
+		return checkC17(*repo, *tier, *workers, *solver, seed)
+	}
 	spec, ok := propSpecs[id]
 	if !ok {
 		fmt.Printf("no check registered for %s\n", id)
